@@ -279,8 +279,12 @@ structure AdjMap.Rel (a : AdjMap) (g : G) : Prop where
   asc : Asc a.nodes
   keysOut : ∀ k, (mlookup a.outbound k).isSome → k ∈ a.nodes
   keysIn : ∀ k, (mlookup a.inbound k).isSome → k ∈ a.nodes
+  ascOut : ∀ v, Asc (mget a.outbound v)
+  ascIn : ∀ v, Asc (mget a.inbound v)
 
 theorem AdjMap.rel_empty : AdjMap.Rel {} {} where
+  ascOut := by intro v; rw [mget_nil]; exact asc_nil
+  ascIn := by intro v; rw [mget_nil]; exact asc_nil
   out := by intro v y; simp [mget_nil, HasEdge]
   inn := by intro v y; simp [mget_nil, HasEdge]
   nodes := by intro n; simp
@@ -298,12 +302,21 @@ theorem AdjMap.rel_step {a : AdjMap} {g : G} (r : a.Rel g) (o : Op) : (a.step o)
             nodes := by intro x; simp [mem_sinsert, r.nodes x]; constructor <;> (rintro (h | h) <;> simp [h]),
             asc := asc_sinsert r.asc,
             keysOut := fun k h => mem_sinsert.mpr (Or.inr (r.keysOut k h)),
-            keysIn := fun k h => mem_sinsert.mpr (Or.inr (r.keysIn k h)) }
+            keysIn := fun k h => mem_sinsert.mpr (Or.inr (r.keysIn k h)),
+            ascOut := r.ascOut, ascIn := r.ascIn }
   | edge id s e =>
     show (a.addEdge s e).Rel _
     rw [G.step_edge]
     unfold AdjMap.addEdge
-    refine { out := ?_, inn := ?_, nodes := ?_, asc := asc_sinsert (asc_sinsert r.asc), keysOut := ?_, keysIn := ?_ }
+    refine { out := ?_, inn := ?_, nodes := ?_, asc := asc_sinsert (asc_sinsert r.asc), keysOut := ?_, keysIn := ?_,
+             ascOut := fun v => by
+               simp only [mget_madd]; split
+               · exact asc_sinsert (r.ascOut _)
+               · exact r.ascOut v,
+             ascIn := fun v => by
+               simp only [mget_madd]; split
+               · exact asc_sinsert (r.ascIn _)
+               · exact r.ascIn v }
     · intro v y
       simp only [mem_mget_madd, hasEdge_append_single, r.out v y]
       constructor <;> (rintro (h | h) <;> simp [h])
